@@ -138,7 +138,7 @@ REGISTRY = {
             "run": _conv("C01", 40), "rule": RULE_CONV, "t1_sections": T1_CONV},
     "C03": {"props_file": "Props/C03.v", "files": CORE_CONV + ["Model/ConvEnc.v", "Proofs/UnstructProofs.v", "Proofs/ClassRoundtrip.v", "Proofs/ConvSound.v", "Proofs/ConvPrim.v", "Proofs/ConvRoundtrip.v", "Proofs/ConvEncProofs.v", "Proofs/ConvCfg.v", "Props/C03.v"],
             "run": _conv("C03", 40), "rule": RULE_CONV, "t1_sections": T1_CONV},
-    "C06": {"props_file": "Props/C06.v", "files": CORE_CONV + ["Proofs/UnstructProofs.v", "Proofs/ClassRoundtrip.v", "Proofs/ConvSound.v", "Proofs/ConvRoundtrip.v", "Proofs/ConvAgree.v", "Proofs/ConvCfg.v", "Props/C06.v"],
+    "C06": {"props_file": "Props/C06.v", "files": CORE_CONV + ["Proofs/UnstructProofs.v", "Proofs/ClassRoundtrip.v", "Proofs/ConvSound.v", "Proofs/ConvRoundtrip.v", "Proofs/ConvAgree.v", "Proofs/ConvMono.v", "Proofs/ConvUnAgree.v", "Proofs/ConvCfg.v", "Props/C06.v"],
             "run": _conv("C06", 40), "rule": RULE_CONV, "t1_sections": T1_CONV},
     "C05": {"props_file": "Props/C05.v", "files": CORE_CONV + ["Model/ConvErr.v", "Proofs/ConvErrProofs.v", "Proofs/ConvErrGlobal.v", "Proofs/ConvCfg.v", "Props/C05.v"],
             "run": (lambda v, b, tier: (hooks_checks.check_hooks(v, b.t1_summary), err_checks.check_c05(v, b.t1_summary, 60 * SIZES[tier]))), "t1_sections": T1_CONV,
